@@ -483,8 +483,9 @@ class ImportUtilities:
         # Calculate the renormalization factor
         renormalization = 1 - rejected_weighting_sum
 
-        if renormalization == 0:
+        if renormalization == 0 or non_rejected_weighting_sum == 0:
             # If the only nonzero weights were for invalid percentages, return 9.37e36
+            # (the rejected weights may add up to 1 only within rounding error)
             return 9.37e36
 
         # Check that everything not rejected adds up to a weighting of 1
